@@ -1,7 +1,198 @@
 import Aqv.Base.Proto
-open Aqv Aqv.Proto
+import Aqv.Base.Keccak
+import Aqv.Model.Trie
+import Aqv.Model.TrieProof
+open Aqv Aqv.Proto Aqv.Trie Aqv.Rlp
 
-/-- stub driver for C10 (answers every case line with "bad-op"); replaced when the property is built. -/
-def handle (l : String) : String := let _ := l; "bad-op\tagree"
+/-! Model driver for C10. One case line = one whole history (or one codec / decode / verify probe).
+
+  T <plain|secure> <op>|<op>|…      ops: u:<key>:<val>  d:<key>  g:<key>  h  c  r  l:<n>  i  p:<key>  x:<key>:<otherkey>
+                                     Go output: one field per producing op, joined by `|`
+  D <item>,<item>,…                 types.DeriveSha over the byte strings (keys rlp(0), rlp(1), …)
+  K <bytes>                         keybytesToHex / hexToCompact (with and without terminator) / compactToHex / hexToKeybytes
+  N <blob>                          decodeNode
+  V <root> <key> <h>=<blob>,…       VerifyProof over an explicit (possibly hostile) database
+-/
+
+def H : Bytes → Bytes := Keccak.keccak256
+
+def nibsHex (k : List Nib) : String := hexOrDash (k.map nibByte)
+
+def hexB (s : String) : Bytes := (bytesOfHex s).getD []
+
+/-- reference map (Spec): association list sorted in iteration order. -/
+abbrev RMap := List (Bytes × Bytes)
+
+def rmErase (m : RMap) (k : Bytes) : RMap := m.filter (fun kv => kv.1 != k)
+
+def rmInsert : RMap → Bytes → Bytes → RMap
+  | [], k, v => [(k, v)]
+  | (k', v') :: rest, k, v =>
+    if k' == k then (k, v) :: rest
+    else if keyLt (keybytesToHex k) (keybytesToHex k') then (k, v) :: (k', v') :: rest
+    else (k', v') :: rmInsert rest k v
+
+def rmUpdate (m : RMap) (k v : Bytes) : RMap := if v.isEmpty then rmErase m k else rmInsert m k v
+
+def rmGet (m : RMap) (k : Bytes) : Option Bytes := (m.find? (fun kv => kv.1 == k)).map (·.2)
+
+def specRoot (m : RMap) : Bytes := mptRoot H (m.map fun kv => (keybytesToHex kv.1, kv.2))
+
+def renderOpt (o : Option Bytes) : String :=
+  match o with
+  | none => "-"
+  | some v => hexOrDash v
+
+def renderIter (kvs : List (Bytes × Bytes)) : String :=
+  if kvs.isEmpty then "-" else ",".intercalate (kvs.map fun kv => hexOrDash kv.1 ++ "=" ++ hexOrDash kv.2)
+
+def renderVRes : VRes → String
+  | .value v => "v" ++ hexOrDash v
+  | .absent => "absent"
+  | .err => "err"
+  | .panic => "panic"
+  | .hang => "hang"
+
+def renderProof (els : List Bytes) (r : VRes) : String :=
+  ",".intercalate (els.map hexOfBytes) ++ ">" ++ renderVRes r
+
+/-- model iteration: leaves of the model trie, paths converted back with hexToKeybytes. -/
+def implIter (t : Node) : String :=
+  let kvs := (toList t).map fun kv =>
+    match hexToKeybytes kv.1 with
+    | some k => (k, kv.2)
+    | none => ([0xEE, 0xEE], kv.2)
+  renderIter kvs
+
+structure St where
+  t : Node := .nil
+  m : RMap := []
+  impl : List String := []          -- model outputs (reverse order)
+  goLeft : List String := []        -- Go outputs still to be judged
+  specOk : Bool := true
+  why : String := ""
+  panicked : Bool := false
+
+def St.emit (s : St) (implOut : String) (specAccepts : String → Bool) (why : String) : St :=
+  match s.goLeft with
+  | [] => { s with impl := implOut :: s.impl, specOk := false, why := if s.specOk then "missing-output" else s.why }
+  | g :: rest =>
+    let ok := g == implOut || specAccepts g
+    { s with impl := implOut :: s.impl, goLeft := rest, specOk := s.specOk && ok,
+             why := if s.specOk && !ok then why else s.why }
+
+def applyKey (secure : Bool) (k : Bytes) : Bytes := if secure then H k else k
+
+def stepOp (secure : Bool) (s : St) (op : String) : St :=
+  if s.panicked then s else
+  match op.splitOn ":" with
+  | ["u", k, v] =>
+    let kb := applyKey secure (hexB k); let vb := hexB v
+    match tryUpdate s.t kb vb with
+    | some t' => { s with t := t', m := rmUpdate s.m kb vb }
+    | none => { s with panicked := true }
+  | ["d", k] =>
+    let kb := applyKey secure (hexB k)
+    match tryDelete s.t kb with
+    | some t' => { s with t := t', m := rmErase s.m kb }
+    | none => { s with panicked := true }
+  | ["g", k] =>
+    let kb := applyKey secure (hexB k)
+    match tryGet s.t kb with
+    | some r => s.emit (renderOpt r) (fun g => g == renderOpt (rmGet s.m kb)) "get-differs-from-content"
+    | none => { s with panicked := true }
+  | ["h"] | ["c"] | ["r"] =>
+    s.emit (hexOfBytes (hashRoot H s.t)) (fun g => g == hexOfBytes (specRoot s.m)) "root-differs-from-mptRoot-of-content"
+  | ["l", _] => s
+  | ["i"] => s.emit (implIter s.t) (fun g => g == renderIter s.m) "iteration-differs-from-content"
+  | ["p", k] =>
+    let kb := applyKey secure (hexB k)
+    let key := keybytesToHex kb
+    match prove H s.t key with
+    | none => { s with panicked := true }
+    | some els =>
+      let r := verify (dbOf H els) (verifyFuel key + els.length) (hashRoot H s.t) key
+      let want : VRes := match rmGet s.m kb with | some v => .value v | none => .absent
+      -- Spec: whatever node list Go produced must verify, against the spec root, to the content
+      let accepts := fun (g : String) =>
+        match g.splitOn ">" with
+        | [elsS, _] =>
+          let gels := (elsS.splitOn ",").map hexB
+          renderVRes (verify (dbOf H gels) (verifyFuel key + gels.length) (specRoot s.m) key) == renderVRes want
+            && g.endsWith (">" ++ renderVRes want)
+        | _ => false
+      s.emit (renderProof els r) accepts "proof-does-not-verify-to-content"
+  | ["x", k, k2] =>
+    -- proof produced for k, verified for k2 against the same root: must yield k2's value, its absence, or an error
+    let kb := applyKey secure (hexB k); let kb2 := applyKey secure (hexB k2)
+    match prove H s.t (keybytesToHex kb) with
+    | none => { s with panicked := true }
+    | some els =>
+      let key2 := keybytesToHex kb2
+      let r := verify (dbOf H els) (verifyFuel key2 + els.length) (hashRoot H s.t) key2
+      let want := match rmGet s.m kb2 with | some v => "v" ++ hexOrDash v | none => "absent"
+      s.emit (renderVRes r) (fun g => g == "err" || g == want) "foreign-proof-verifies-to-wrong-value"
+  | _ => s
+
+def renderNib (n : Nib) : Char := hexDigit (n.val % 16)
+
+partial def renderP : PNode → String
+  | .nil => "n"
+  | .value v => "v" ++ hexOrDash v
+  | .hash h => "h" ++ hexOrDash h
+  | .short k c => "s" ++ nibsHex k ++ "(" ++ renderP c ++ ")"
+  | .full cs => "f[" ++ ",".intercalate ((List.finRange 17).map fun i => renderP (cs i)) ++ "]"
+
+def outDecode (blob : Bytes) : String :=
+  match decodeNode (blob.length + 1) blob with
+  | .ok n => "ok " ++ renderP n
+  | .error .err => "err"
+  | .error .panic => "panic"
+
+def parsePairs (s : String) : List (Bytes × Bytes) :=
+  if s == "-" then [] else
+  (s.splitOn ",").filterMap fun p =>
+    match p.splitOn "=" with
+    | [h, b] => some (hexB h, hexB b)
+    | _ => none
+
+def handle (l : String) : String :=
+  let (inp, go) := splitCase l
+  match fields inp with
+  | ["T", kind, ops] =>
+    let secure := kind == "secure"
+    let goOuts := if go == "" then [] else go.splitOn "|"
+    let s0 : St := { goLeft := goOuts }
+    let s := (ops.splitOn "|").foldl (stepOp secure) s0
+    if s.panicked then verdict "model-panic" go false "model-panicked-on-api-history"
+    else
+      let implOut := "|".intercalate s.impl.reverse
+      -- internal consistency of the run-time model against the run-time spec (a theorem; checked anyway)
+      let consistent := hexOfBytes (hashRoot H s.t) == hexOfBytes (specRoot s.m)
+      if !consistent then implOut ++ "\tspec-reject:model-root-differs-from-spec-root"
+      else verdict implOut go (s.specOk && s.goLeft.isEmpty) s.why
+  | ["D", items] =>
+    let its := if items == "-" then [] else (items.splitOn ",").map hexB
+    let keyed := (List.range its.length).zip its |>.map fun (i, v) => (enc (.str (beBytes i)), v)
+    let t := keyed.foldl (fun t kv => (tryUpdate t kv.1 kv.2).getD t) Node.nil
+    let m := keyed.foldl (fun m kv => rmUpdate m kv.1 kv.2) ([] : RMap)
+    let implOut := hexOfBytes (hashRoot H t)
+    verdict implOut go (go == hexOfBytes (specRoot m)) "derivesha-differs-from-mptRoot"
+  | ["K", hex] =>
+    let b := hexB hex
+    let hx := keybytesToHex b
+    let back := match hexToKeybytes hx with | some k => hexOrDash k | none => "panic"
+    let c2h := match compactToHex b with | some k => nibsHex k | none => "panic"
+    let out := nibsHex hx ++ " " ++ hexOrDash (hexToCompact hx) ++ " " ++ hexOrDash (hexToCompact hx.dropLast) ++ " " ++ c2h ++ " " ++ back
+    let rt (k : List Nib) := compactToHex (hexToCompact k) == some k
+    -- Spec: round trips (the Go output is judged by re-parsing is not possible here; only equality with the model counts)
+    verdict out go (false && rt hx) "key-encoding-differs"
+  | ["N", hex] => verdict (outDecode (hexB hex)) go false "decodeNode-differs"
+  | ["V", root, key, pairs] =>
+    let db := dbOfPairs (parsePairs pairs)
+    let k := keybytesToHex (hexB key)
+    let r := verify db (verifyFuel k + (parsePairs pairs).length + 8) (hexB root) k
+    verdict (renderVRes r) go false "verifyproof-differs"
+  | _ => "bad-op\tagree"
 
 def main : IO Unit := runLines handle
